@@ -207,6 +207,13 @@ def gen_run(rng, cfg):
                     fault.setdefault("at", rng.randrange(1, 400))
                     dirty_next = True
         else:  # gen
+            if rng.random() < 0.5 and not ("items_fixed" in op):
+                # prefer an input that parses: a construct snippet or a small strict program
+                if rng.random() < 0.5:
+                    items = list(rng.choice(W.STATEFUL_SNIPPETS))
+                else:
+                    pv = W.ProgGen(rng, actor=None, size=rng.choice([1, 2, 3]), depth=depth, sloppy=0.0, marks=False)
+                    items = pv.program()
             op["select"] = [rng.choice(GEN_SELECT), rng.randrange(8), rng.sample(GEN_SELECT[1:10], 3)]
             if rng.random() < 0.8:
                 op["reduce"], op["gencls"] = main_gen  # keep the reuse chain on one generator
